@@ -556,7 +556,19 @@ func c16Converters(c *Ctx) {
 				}
 				nAppend++
 				key := lit.Name + "/append#" + itoa(nAppend)
-				conv, ok := unparen(call.Args[1]).(*ast.CallExpr)
+				appended := unparen(call.Args[1])
+				for k := 0; k < 4; k++ { // a local bound once to the converted value
+					id := identOf(appended)
+					if id == nil {
+						break
+					}
+					rhs, idx, _, okd := lx.def(info.Uses[id])
+					if !okd || rhs == nil || idx >= 0 {
+						break
+					}
+					appended = unparen(rhs)
+				}
+				conv, ok := appended.(*ast.CallExpr)
 				okC, why := false, "the appended argument is "+lx.str(call.Args[1])+", not a value converted to the declared parameter type: a parameter of a named type (type Level int) would make reflect.Value.Call panic"
 				if ok {
 					if sel, ok := unparen(conv.Fun).(*ast.SelectorExpr); ok && sel.Sel.Name == "Convert" && len(conv.Args) == 1 {
